@@ -30,6 +30,18 @@ type Scheduler interface {
 	AfterUnlock(m *Mutex)
 }
 
+// FSPointer is implemented by schedulers that offer scheduling points at file operations.
+type FSPointer interface{ FSPoint(label string) }
+
+// FSPoint is called by the os stand-in (package vos) before every file operation of the layout code.
+func FSPoint(label string) {
+	if b := active.Load(); b != nil {
+		if f, ok := b.s.(FSPointer); ok {
+			f.FSPoint(label)
+		}
+	}
+}
+
 var active atomic.Pointer[schedBox]
 
 type schedBox struct{ s Scheduler }
